@@ -66,7 +66,7 @@ func runTE(c *mon.Ctx, name string, g *te.Curve) {
 		vd := ref.Decode(b)
 		for _, op := range []string{"SetBytes", "Unmarshal"} {
 			key := func(kind string) string { return name + "/PointAffine." + op + "/" + kind + "/" + cls }
-			in := append([]byte(nil), b...)
+			in := exact(b)
 			p := lib(g.B)
 			var err error
 			n := -1
@@ -204,9 +204,13 @@ func refStr(g *te.Curve, vd ocodec.TEVerdict) string {
 // ---- GT (E12 / E24 / E6) Bytes / Marshal / SetBytes / Unmarshal ----
 
 type gtAPI interface {
+	SetBytes([]byte) error
+}
+
+// gtMarshalAPI is only implemented by E12 and E24 (the E6 of the bw6 curves has Bytes/SetBytes only).
+type gtMarshalAPI interface {
 	Marshal() []byte
 	Unmarshal([]byte) error
-	SetBytes([]byte) error
 }
 
 func runGT(c *mon.Ctx, l *curveLib) {
@@ -267,11 +271,16 @@ func runGT(c *mon.Ctx, l *curveLib) {
 		}
 		return true
 	}
+	_, hasMarshal := reflect.New(l.gtT).Interface().(gtMarshalAPI)
+	ops := []string{"SetBytes"}
+	if hasMarshal {
+		ops = append(ops, "Unmarshal")
+	}
 	judge := func(b []byte, cls string) {
 		want, why := ref.Decode(b)
-		for _, op := range []string{"SetBytes", "Unmarshal"} {
+		for _, op := range ops {
 			key := func(kind string) string { return name + "/" + op + "/" + kind + "/" + cls }
-			in := append([]byte(nil), b...)
+			in := exact(b)
 			v := mk(mx)
 			var err error
 			c.Class(name + "/" + op + "/" + cls)
@@ -279,7 +288,7 @@ func runGT(c *mon.Ctx, l *curveLib) {
 				if op == "SetBytes" {
 					err = v.Interface().(gtAPI).SetBytes(in)
 				} else {
-					err = v.Interface().(gtAPI).Unmarshal(in)
+					err = v.Interface().(gtMarshalAPI).Unmarshal(in)
 				}
 			}) {
 				continue
@@ -293,7 +302,7 @@ func runGT(c *mon.Ctx, l *curveLib) {
 				c.Check(op, key("rejects-valid"), false, desc)
 			case why != "" && err == nil:
 				// an accepted string must at least re-encode to itself
-				re := v.Interface().(gtAPI).Marshal()
+				re := arrBytes(v, "Bytes")
 				c.Check(op, key("accepts-invalid/"+why), false, func() string {
 					return fmt.Sprintf("%s; accepted string re-encodes to %s (identical=%v)", desc(), hx(re), bytes.Equal(re, b))
 				})
@@ -304,7 +313,7 @@ func runGT(c *mon.Ctx, l *curveLib) {
 				c.Check(op, key("wrong-value"), eq(got, want), func() string {
 					return fmt.Sprintf("%s; decoded %v, reference %v", desc(), got, want)
 				})
-				re := v.Interface().(gtAPI).Marshal()
+				re := arrBytes(v, "Bytes")
 				c.Check(op, key("reencode-differs"), bytes.Equal(re, b), func() string {
 					return fmt.Sprintf("accepted %s re-encodes to %s", hx(b), hx(re))
 				})
@@ -317,7 +326,10 @@ func runGT(c *mon.Ctx, l *curveLib) {
 		var got, got2 []byte
 		if c.Guard(name+"/Bytes/panic/"+e.n, func() string { return fmt.Sprint(e.e) }, func() {
 			got = arrBytes(v, "Bytes")
-			got2 = v.Interface().(gtAPI).Marshal()
+			got2 = got
+			if hasMarshal {
+				got2 = v.Interface().(gtMarshalAPI).Marshal()
+			}
 		}) {
 			continue
 		}
